@@ -1240,6 +1240,18 @@ pub fn object_set_prototype_of(
         }
     };
 
+    // A prototype chain that leads back to the object would make every property lookup loop
+    let mut ancestor = new_proto.clone();
+    while let Some(current) = ancestor {
+        if current.id() == obj_ref.id() {
+            return Err(JsError::type_error("Cyclic __proto__ value"));
+        }
+        if is_proxy(&current) {
+            break;
+        }
+        ancestor = current.borrow().prototype.clone();
+    }
+
     obj_ref.borrow_mut().prototype = new_proto;
     // Object was passed in by caller, already owned - no guard needed
     Ok(Guarded::unguarded(obj))
